@@ -108,7 +108,7 @@ class StackWorld(object):
   def __init__(self, env, rng, kind='thrift', n_eps=1, balancer='aperture', timeout=10.0,
                client_id=None, open_timeout=None, scripted=False, policy=None, iface=None,
                resurrector=None, pool=None, server_modes=None, connect_latency=None, processor_module=None,
-               aperture=None):
+               aperture=None, dns=None):
     from scales.constants import SinkRole
     from scales.loadbalancer import HeapBalancerSink
     from scales.pool import WatermarkPoolSink
@@ -120,6 +120,9 @@ class StackWorld(object):
     self.env, self.rng, self.kind = env, rng, kind
     self.net = get_net(env)
     self.net.reset()
+    for name_, addr_ in (dns or {}).items():     # host names with addresses of their own (re-addressable later)
+      self.net.dns[name_] = addr_
+      self.net.addr_owner[addr_] = name_
     self.policy = policy or servers.DefaultPolicy()
     self.servers = []
     self.calls = []
